@@ -152,7 +152,7 @@ func (r *Router) match(method, path string) (rt *Route, ps Params) {
 	}
 
 	// find in cached routes
-	if r.enableCaching {
+	if r.enableCaching && r.cachedRoutes != nil {
 		route, ok := r.cachedRoutes.Get(method + path)
 		if ok {
 			return route, route.params
